@@ -244,7 +244,8 @@ class G:
             if self.exotic and depth == 0 and r.chance(1, 25):
                 # a WIDE list (an `$in` over a thousand ids is ordinary): every element is a literal of its own
                 n = r.choice([999, 1000, 1001, 1024, 1500])
-                return Obj([(r.choice(ARR_OPS), [self.tok("S") if j % 7 else Num(str(1000 + j)) for j in range(n)])])
+                mixed = r.chance(1, 3)
+                return Obj([(r.choice(ARR_OPS), [self.tok("S") if (j % 7 or not mixed) else Num(str(1000 + j)) for j in range(n)])])
             return Obj([(r.choice(ARR_OPS), [self.lit(depth + 1) for _ in range(1 + r.below(3))])])
         if k == 9:
             return Obj([("$elemMatch", self.filter(depth + 1))])
